@@ -44,6 +44,8 @@ RULE = (
     " One case in three: the agent pads the scoped PDU with 1..15 octets before encrypting (R"
     "FC 3414 8.1.1.2). Operations set-refused / get-generr: an encrypted error response surfa"
     "ces as the documented ErrorResponse."
+    " \"Later requests\": 1.7 s pass between the requests of one client and the agent clock tic"
+    "ks before each answer (responses carry another engine time than their requests)."
 )
 ASSUMPTIONS = [
     "the only thing assumed about a privacy plug-in is decrypt(encrypt(x)) == x; all harness plug-ins satisfy it exactly",
